@@ -10,6 +10,9 @@ open Util
    B lines: user code blocked / re-entering on a pipeline goroutine while Stop or an expansion arrives; judged by chk_C18,
             where leaving through the grace period is the EXPECTED verdict of mode h (the harness keeps the sink blocked
             beyond the grace period) and no other mode; so:<j> (Stop still running after grace + margin) = stop_over_grace;
+   I lines: Execute immediately followed by Stop; judged by chk_C18 (a Stop that leaves through its grace although nothing is
+            in flight = stop_grace_expired, goroutine_leak, the barrier clauses); the same script is replayed on the model
+            with the Stop caller scheduled BEFORE the pipeline goroutines, which must show a join and no goroutine left;
    L line : two overlapping Stop calls; chk_C18 must accept, the literal reading (chk_literal) does not (F18c). *)
 
 let string_of_lclause = function
@@ -34,11 +37,48 @@ let cls_of v = if v = -7 then Poison else if v < 0 then Filtered else Pass
 let nth_opt l n = try Some (List.nth l n) with _ -> None
 
 (* ---- deterministic drive of the model for one script *)
-let run_script kind strat workers poolcap (sinks : string list) (ops : string list) : string list =
-  let window = (kind = "counting1" || kind = "global1") in
-  let cep = (kind = "cepopen") in
-  (* cepopen = PATTERN (A+): is a match open? a row with v >= 0 opens/extends it, a row with v < 0 closes and reports it *)
-  let cep_open = ref false in
+let is_cep kind = String.length kind >= 3 && String.sub kind 0 3 = "cep"
+let is_window kind = not (is_cep kind) && kind <> "direct" && kind <> "analytic"
+
+(* the state of the PATTERN (A+) engine the scripts need: is a match open, and (cepmeas) is its last row the one on
+   which MEASURES panics. Go anchors: cep/engine.go Process / step (a panic unwinds before `p.runs = survivors`, so the
+   partition keeps the runs it had), emitGreedy / project (a panic while the completed match is projected leaves the
+   stale runs in place: the match stays open and the closing row is lost), Flush. *)
+type cepst = { mutable c_open : bool; mutable c_lastp : bool }
+
+(* what the engine does with a row of class cl: `Quiet (no result), `Report (a match is closed and reported), `Panic *)
+let cep_row kind (e : cepst) cl =
+  match kind, cl with
+  | "cepdef", Poison -> `Panic                                   (* DEFINE panics: the row is lost, nothing changes *)
+  | "cepmeas", Poison -> e.c_open <- true; e.c_lastp <- true; `Quiet   (* v = -7 belongs to A *)
+  | _, Pass -> e.c_open <- true; e.c_lastp <- false; `Quiet
+  | _, _ -> if not e.c_open then `Quiet
+            else if kind = "cepmeas" && e.c_lastp then `Panic   (* MEASURES panics: the match stays open *)
+            else (e.c_open <- false; `Report)
+
+(* does Stop's flush make MEASURES panic (finding F57: the panic escapes Stop)? *)
+let cep_flush_panics kind (e : cepst) = kind = "cepmeas" && e.c_open && e.c_lastp
+
+(* the engine state before each op of a script (pure replay of the rows, Stop flushes) *)
+let cep_states kind (ops : string list) : (bool * bool) list =
+  let e = { c_open = false; c_lastp = false } in
+  let stopped = ref false in
+  List.map (fun op ->
+      let before = (e.c_open, e.c_lastp) in
+      (match op.[0] with
+       | 'e' when not !stopped -> ignore (cep_row kind e (cls_of (int_of_string (String.sub op 1 (String.length op - 1)))))
+       | 'X' -> if not !stopped && not (cep_flush_panics kind e) then e.c_open <- false; stopped := true
+       | _ -> ());
+      before) ops
+
+(* immediate = family I: only Start's critical section has run when the calls begin, the Emit calls do not let the
+   pipeline goroutines run, and the Stop caller moves first: the pipeline goroutines are scheduled only when it cannot.
+   Returns the per-op observations and whether, at the end, no tracked goroutine is left (lifecycle counter 0, every
+   pipeline thread done). *)
+let run_script ?(immediate = false) kind strat workers poolcap (sinks : string list) (ops : string list) : string list * bool =
+  let window = if immediate then is_window kind else (kind = "counting1" || kind = "global1") in
+  let cep = is_cep kind in
+  let cepe = { c_open = false; c_lastp = false } in
   let c = { c_fixed_lock = true; c_track_sync = true; c_batch_recover = true; c_window = window; c_cep = cep;
             c_strategy = (match strat with "drop" -> SDrop | "block" -> SBlock | _ -> SExpand);
             c_block_timeout = false; c_pool_cap = nat_of_int poolcap; c_max_cap = nat_of_int 64 } in
@@ -69,9 +109,10 @@ let run_script kind strat workers poolcap (sinks : string list) (ops : string li
                              | Filtered -> try_step tid 1
                              | Poison -> poison_batch := true; try_step tid 0
                              | Pass -> try_step tid 0)
-             else if cep then (match cl with
-                               | Pass -> cep_open := true; try_step tid 1
-                               | _ -> if !cep_open then (cep_open := false; try_step tid 0) else try_step tid 1)
+             else if cep then (match cep_row kind cepe cl with
+                               | `Quiet -> try_step tid 1
+                               | `Report -> try_step tid 0
+                               | `Panic -> try_step tid 2)
              else (match cl with Pass -> try_step tid 0 | Filtered -> try_step tid 1 | Poison -> try_step tid 2)
          | [] -> try_step tid 3)
     | CoLoop ->
@@ -85,7 +126,8 @@ let run_script kind strat workers poolcap (sinks : string list) (ops : string li
     let progress = ref false in
     for tid = 0 to nbase - 1 do if sys_step tid then progress := true done;
     if !progress then settle (fuel - 1) in
-  settle 10000;
+  if immediate then ignore (try_step 0 0) else settle 10000;
+  let seen_stop = ref false in
   let out = ref [] in
   List.iteri (fun i op ->
       let tid = nbase + i in
@@ -98,12 +140,14 @@ let run_script kind strat workers poolcap (sinks : string list) (ops : string li
           let ch = (match th.t_pc, op.[0] with
                     | SyBegin, _ -> if classes.(i) = Pass then 0 else 1
                     | TrigCall, _ -> 1
-                    | StFlush, _ -> if !cep_open then (cep_open := false; 0) else 1   (* Stop flushes the open match *)
+                    | StFlush, _ -> if cep_flush_panics kind cepe then 1   (* F57: the flush panics, nothing is delivered *)
+                                  else if cepe.c_open then (cepe.c_open <- false; 0) else 1   (* Stop flushes the open match *)
                     | _ -> 0) in
           if not (try_step tid ch) then settle 10000;
           drive (fuel - 1)
         end in
-      drive 10000; settle 10000;
+      if op = "X" then seen_stop := true;
+      drive 10000; if not immediate || !seen_stop then settle 10000;
       let evs = List.filteri (fun k _ -> k < List.length !st.ltrace - before) !st.ltrace in
       let nb = List.length (List.filter (function ESinkBegin _ -> true | _ -> false) evs) in
       let r = (match op.[0] with
@@ -118,7 +162,9 @@ let run_script kind strat workers poolcap (sinks : string list) (ops : string li
                    else "1:?"
                | _ -> "-") in
       out := Printf.sprintf "%d:%s" nb r :: !out) ops;
-  List.rev !out
+  let drained = int_of_nat !st.sh.life = 0
+                && List.for_all (fun k -> let th = thread k in th.t_pc = LDone && th.t_code = []) (List.init nbase (fun k -> k)) in
+  (List.rev !out, drained)
 
 (* ---- event traces *)
 let parse_event (tok : string) : levent option =
@@ -134,6 +180,9 @@ let parse_event (tok : string) : levent option =
   | ["gr"; b; f] -> Some (EGoroutines (nat_of_int (int_of_string b), nat_of_int (int_of_string f)))
   | _ -> None
 
+(* sp:<j> = a panic escaped Stop call j into its caller (recorded by the harness just before sr:<j>) *)
+let stop_panicked tok = String.length tok > 3 && String.sub tok 0 3 = "sp:"
+
 let handle (toks : string list) : string =
   match toks with
   | "S" :: kind :: strat :: workers :: poolcap :: sinks :: rest ->
@@ -142,23 +191,40 @@ let handle (toks : string list) : string =
            let sinks = if sinks = "-" then [] else String.split_on_char ',' sinks in
            let gr = List.filter (fun t -> String.length t > 2 && String.sub t 0 3 = "gr:") obs in
            let obs = List.filter (fun t -> not (List.mem t gr)) obs in
-           if List.mem "to" obs then "chk stuck a call of the script did not return" else
+           if List.mem "to" obs then begin
+             (* which call: the observation list ends at the call that did not return *)
+             let rec idx i = function [] -> i | "to" :: _ -> i | _ :: r -> idx (i + 1) r in
+             let k = idx 0 obs in
+             let op = (match nth_opt ops k with Some o -> o | None -> "?") in
+             let poisoned_before = List.exists (fun o -> o = "e-7" || o = "y-7") (List.filteri (fun i _ -> i < k) ops) in
+             Printf.sprintf "chk stuck a call of the script did not return: call %d (%s%s)%s" (k + 1) op
+               (if op = "X" then " = Stop, 8 s" else "")
+               (if poisoned_before then
+                  (if is_cep kind then " after a row that panicked inside the MATCH_RECOGNIZE engine (the panic is recovered per row: later rows and Stop's flush must go on)"
+                   else " after a row that panicked (recovered per row)") else "")
+           end else
            let leak = (match gr with [g] -> (match parse_event g with
                                              | Some (EGoroutines (b, f)) -> int_of_nat f > int_of_nat b | _ -> false) | _ -> false) in
            if leak then "chk goroutine_leak " ^ String.concat " " gr else
            (* the property on the implementation's own output: nothing runs after the first Stop returned *)
-           let rec after_stop seen ops obs = match ops, obs with
-             | op :: ro, ob :: rb ->
+           let ceps = if is_cep kind then cep_states kind ops else List.map (fun _ -> (false, false)) ops in
+           let rec after_stop seen ops obs ces = match ops, obs, ces with
+             | op :: ro, ob :: rb, (c_open, c_lastp) :: rc ->
                  let (n, r) = (match String.split_on_char ':' ob with n :: r :: _ -> (int_of_string n, r) | _ -> (0, "?")) in
-                 if seen && n > 0 then Some ("sink_after_stop op=" ^ op ^ " sink_begins=" ^ string_of_int n)
+                 if op = "X" && r = "2" then
+                   (* Stop never panics; told apart: the flush of an open match whose MEASURES panic (cepmeas, last row -7) *)
+                   Some (if kind = "cepmeas" && not seen && c_open && c_lastp
+                         then "panic_escaped Stop flush_measures (the match Stop flushes ends with the row on which MEASURES panics)"
+                         else "panic_escaped Stop")
+                 else if seen && n > 0 then Some ("sink_after_stop op=" ^ op ^ " sink_begins=" ^ string_of_int n)
                  else if seen && op.[0] = 'y' && r <> "0" then Some ("emitsync_after_stop op=" ^ op ^ " result=" ^ r)
                  else if op.[0] = 'y' && r = "2" then Some ("panic_escaped op=" ^ op)
-                 else after_stop (seen || op = "X") ro rb
+                 else after_stop (seen || op = "X") ro rb rc
              | _ -> None in
-           (match after_stop false ops obs with
+           (match after_stop false ops obs ceps with
             | Some v -> "chk " ^ v
             | None ->
-                let model = run_script kind strat (int_of_string workers) (int_of_string poolcap) sinks ops in
+                let (model, _) = run_script kind strat (int_of_string workers) (int_of_string poolcap) sinks ops in
                 if model = obs then "ok nt"
                 else
                   (* Stop's flush: every sink registered before the Stop gets the flushed matches exactly once, in the model
@@ -192,9 +258,29 @@ let handle (toks : string list) : string =
            (* mode h: the sink was still blocked when Stop returned, so a return through the join is impossible: the
               monitor has then seen the sink end after the barrier (sink_running_after_stop) -- unless no sink began *)
            if has_begin && has_ret then "ok nt" else "ok")
+  | "I" :: kind :: strat :: _ :: sinks :: rows :: post :: "#" :: evs ->
+      if List.exists stop_panicked evs then "chk panic_escaped Stop" else
+      let tr = List.filter_map parse_event evs in
+      if List.length tr <> List.length evs then "bad event token" else
+      (* the model's answer for this script, the Stop caller moving before the pipeline goroutines *)
+      let sinks = if sinks = "-" then [] else String.split_on_char ',' sinks in
+      let ops = List.init (int_of_string rows) (fun i -> "e" ^ string_of_int i) @ ["X"]
+                @ List.map (function 'e' -> "e1" | 'x' -> "X" | 't' -> "T" | 'g' -> "G" | _ -> "A")
+                    (List.init (String.length post) (String.get post)) in
+      (match (try Some (run_script ~immediate:true kind strat 2 4 sinks ops) with Failure _ -> None) with
+       | None -> "diff immediate: the model's Stop cannot return through the join"
+       | Some (_, false) -> "diff immediate: the model keeps a tracked goroutine after Stop"
+       | Some (_, true) ->
+           (match chk_C18 tr with
+            | Some cl ->
+                let leak = List.exists (function EGoroutines (b, f) -> int_of_nat f > int_of_nat b | _ -> false) tr in
+                "chk " ^ string_of_lclause cl ^ (if leak && cl <> ClLeak then " + goroutine_leak" else "")
+                ^ " (Execute; Stop with nothing in flight: in the model Stop joins and no goroutine is left)"
+            | None -> if List.exists (function EStopReturn _ -> true | _ -> false) tr then "ok nt" else "ok"))
   | "W" :: _ :: _ :: _ :: _ :: _ :: _ :: _ :: _ :: "#" :: evs
   | "P" :: _ :: _ :: _ :: _ :: "#" :: evs
   | "R" :: _ :: _ :: _ :: "#" :: evs ->
+      if List.exists stop_panicked evs then "chk panic_escaped Stop" else
       let tr = List.filter_map parse_event evs in
       if List.length tr <> List.length evs then "bad event token" else
       if List.exists (fun t -> String.length t > 3 && String.sub t 0 3 = "ye:" && String.sub t (String.length t - 2) 2 = ":2") evs
